@@ -67,6 +67,7 @@ class atom(boolean.AndRestriction):
         "cpvstr",
         "op",
         "blocks",
+        "blocks_strongly",
         "negate_vers",
         "use",
         "slot",
@@ -300,8 +301,10 @@ class atom(boolean.AndRestriction):
         elif self.version is not None:
             raise errors.MalformedAtom(orig_atom, "versioned atom requires an operator")
 
-        self._hash = hash(orig_atom)
         self.negate_vers = negate_vers
+        # hash what equality compares; the original text differs for equal
+        # atoms (USE deps are kept sorted)
+        self._hash = hash(tuple(getattr(self, x) for x in self.__attr_comparison__))
 
     __getattr__ = klass.GetAttrProxy("_cpv")
     __dir__ = klass.DirProxy("_cpv")
@@ -471,11 +474,25 @@ class atom(boolean.AndRestriction):
         if c:
             return c
 
+        c = cmp(f(self.subslot), f(other.subslot))
+        if c:
+            return c
+
+        c = cmp(f(self.slot_operator), f(other.slot_operator))
+        if c:
+            return c
+
         c = cmp(self.use, other.use)
         if c:
             return c
 
-        return cmp(self.repo_id, other.repo_id)
+        c = cmp(self.repo_id, other.repo_id)
+        if c:
+            return c
+
+        # equal versions can be spelled differently (1.0 vs 1.00, -r0 vs
+        # nothing); equality compares the spelling, so order by it last
+        return cmp(self.cpvstr, other.cpvstr)
 
     no_usedeps = klass.alias_attr("get_atom_without_use_deps")
 
